@@ -487,8 +487,8 @@ func init() {
 				structCover("chain", fam.Chain, rec, false, 60, 500, 2, 0),
 				wideCover("chain", fam.Chain, rec, false, 300, 0),
 				structCover("shadow", fam.Shadow, rec, false, 30, 0, 2, 0),
-				structCover("groups", fam.Groups, rec, false, 12, 40, 2, 0),
-				wideCover("groups", fam.Groups, rec, false, 60, 0),
+				structCover("groups", fam.Groups, rec, false, 16, 60, 2, 0),
+				wideCover("groups", fam.Groups, rec, false, 100, 0),
 				randCover("dec-rand", tweak(small, decy), rec, 40, 400, 0),
 			},
 			traces: stdTraces("dec", tweak(medium, decy), 0, stdOpts)})})
